@@ -33,6 +33,7 @@ ASSUMPTIONS = [
     "steps with cond(selected items) > 1e5 are skipped for PCov-CUR (target residual goes through a pseudo-inverse)",
     "feature PCov-CUR: residual covariances with eigenvalues near the code's absolute 1e-12 cut are skipped",
     "steps after the residual is numerically exhausted are not judged (known finding K2 of C01)",
+    "`tolerance` is the user's absolute 'this is zero' threshold (item norms) and relative pseudo-inverse cut (selected spectrum): cases where a residual item norm or the squared relative spectrum of the selections is within 100x of it are skipped",
 ]
 KINDS = ("gauss", "gauss", "uniform", "scaled1", "clustered", "lattice", "lowrank_hi")
 TOL_PI = 1e-6
@@ -91,6 +92,27 @@ def _fit(spec, X, y, j, label="", past=None):
     tr = rt.GreedyTrace(est)
     j.lib("fit" + label, sel.fit, est, X, y, spec)
     return est, tr
+
+
+def _tolerance_clear(spec, X, seq):
+    """The selectors' `tolerance` is an absolute threshold on the norm of a (residual) item below which it is treated as
+    zero, and the relative cut of the pseudo-inverse that explains y by the selections.  A case is judged only when
+    every quantity the code compares with it is clear of it (factor 100)."""
+    tol = float(spec["kw"].get("tolerance", 1e-12))
+    A = np.asarray(sel.items(X, sel.axis_of(spec)), dtype=float)
+    R = A.copy()
+    for t, i in enumerate(seq):
+        r = float(np.linalg.norm(R[i]))
+        if r < 100 * tol:
+            return False
+        q = R[i] / r
+        R = R - np.outer(R @ q, q)
+    if spec["cls"] == "PCovCUR" and seq:
+        sv = np.linalg.svd(A[seq], compute_uv=False)
+        r_ = min(len(seq), A.shape[1])
+        if (sv[r_ - 1] / sv[0]) ** 2 < 100 * tol:
+            return False
+    return True
 
 
 def _judge_fit(spec, X, y, est, tr, j, judge_scores=True):
@@ -157,6 +179,8 @@ def run(case, j):
     if case.get("unit", 1.0) < 1e-4:
         j.note("small_unit_cases")
     est, tr = _fit(spec, X, y, j, past=case.get("past"))
+    if not _tolerance_clear(spec, X, [e["idx"] for e in tr.commits()]):
+        raise Skip("residual-norm-or-selected-spectrum-within-100x-of-the-tolerance")
     seq, njudged, pis = _judge_fit(spec, X, y, est, tr, j)
     idx = [int(v) for v in est.selected_idx_]
     j.ok("selected_idx_ == traced commits", idx == seq, (idx, seq))
